@@ -146,11 +146,12 @@ Definition commit_ok (s : st) : bool :=
 (* one observed block: the batch operations and trim candidates read off the real code, and what the real
    node stored: trimmed keys (ReadTrimmedUTXOs), the full 'ut'+'cl' scan (sorted by key index), the stored
    set size, and whether MuHash(scan) equals the stored multiset / header UTXORoot. *)
-(* o_undone: the 'ut'/'cl' scan observed after the node switched its head back from this block to its parent with
-   the real HeaderChain.SetCurrentHeader (None: this block was not rolled back alone). *)
+(* o_undone = Some (k, u): the node later switched its head back over k blocks with the real
+   HeaderChain.SetCurrentHeader, this block being the OLDEST of the k (the new head is this block's parent), and u is
+   the 'ut'/'cl' scan observed after that rollback (None: no such switch was observed for this block). *)
 Record blk := mkBlk {
   b_ops : list op; b_cands : list (list cand);
-  o_trimmed : list key; o_content : db; o_size : N; o_rootok : bool; o_undone : option db }.
+  o_trimmed : list key; o_content : db; o_size : N; o_rootok : bool; o_undone : option (nat * db) }.
 
 (* ---------- head switch: one iteration of the rollback loop of core/headerchain.go:SetCurrentHeader ---------- *)
 (* The undo records Process writes for the Qi outputs of a block:
@@ -196,6 +197,32 @@ Definition rollback_block (o : undo_order) (tv : trim_view) (s : st) (ops : list
   end.
 Definition is_ut (o : op) : bool := match o with Update _ _ => false | _ => true end.
 
+(* ---------- head switch over several blocks: the whole rollback loop of SetCurrentHeader ---------- *)
+(* one iteration applied to the database as it IS at that moment [d] (not assumed to be what the block wrote): the undo
+   records and the trimmed record are the ones stored when the block was appended on parent state [s] *)
+Definition undo_block (o : undo_order) (tv : trim_view) (s : st) (ops : list op) (cands : list (list cand)) (d : db)
+  : db :=
+  let '(d1, _, _) := run_ops (s_db s) ops in
+  let view := match tv with ParentDb => s_db s | AfterOps => d1 end in
+  let tr := flat_map (trim_one view) cands in
+  let '(sp, cr) := undo_records (s_db s) ops in
+  undo o (sp ++ tr) cr d.
+(* the blocks [bs] are appended on [s] (oldest first), then the loop `for prevHeader != commonHeader` walks back from the
+   newest to the oldest, one batch per block, each written before the next iteration starts *)
+Fixpoint switch_back (o : undo_order) (tv : trim_view) (s : st) (bs : list block) : option db :=
+  match bs with
+  | [] => Some (s_db s)
+  | b :: t =>
+      match finalize tv s (fst b) (snd b) with
+      | None => None
+      | Some (s', _) =>
+          match switch_back o tv s' t with
+          | None => None
+          | Some d => Some (undo_block o tv s (fst b) (snd b) d)
+          end
+      end
+  end.
+
 Fixpoint db_eqb (a b : db) : bool :=
   match a, b with
   | [], [] => true
@@ -217,10 +244,12 @@ Fixpoint check_chain (tv : trim_view) (s : st) (bs : list blk) : bool :=
           && Bool.eqb (acc_eqb (s_acc s') (of_content (content (s_db s')))) (o_rootok b)
           && match o_undone b with
              | None => true
-             | Some u => match rollback_block RestoreThenDelete tv s (b_ops b) (b_cands b) with
-                         | Some d => db_eqb d u
-                         | None => false
-                         end
+             | Some (k, u) =>
+                 match switch_back RestoreThenDelete tv s
+                         (firstn k (map (fun x => (b_ops x, b_cands x)) (b :: t))) with
+                 | Some d => Nat.leb 1 k && Nat.leb k (S (length t)) && db_eqb d u
+                 | None => false
+                 end
              end
           && check_chain tv s' t
       end
